@@ -368,7 +368,8 @@ def fill_query_params(query, params):
     def params_replace(node, **kwargs):
         if isinstance(node, ast.Parameter):
             value = params.pop(0)
-            return ast.Constant(value)
+            # the literal takes the place of the placeholder: keep what the user attached to it
+            return ast.Constant(value, alias=node.alias, parentheses=node.parentheses)
 
     # put parameters into query
     query_traversal(query, params_replace)
